@@ -138,7 +138,7 @@ def cmd_run(a):
 
 def cmd_table(a):
     base = os.path.join(HERE, "seeded")
-    print("| seeded break | property | needs to manifest | caught by | missed by |\n|---|---|---|---|---|")
+    print("| seeded break | property | needs to manifest | caught by (now) | first run |\n|---|---|---|---|---|")
     for sid in sorted(os.listdir(base)):
         mp = os.path.join(base, sid, "meta.json")
         if not os.path.exists(mp):
@@ -147,7 +147,7 @@ def cmd_table(a):
         c = m.get("checks", {})
         print("| %s | %s | %s | %s | %s |" % (sid, m["property"], str(m.get("needs_to_manifest", ""))[:110].replace("|", "/"),
                                              ", ".join(k for k, v in c.items() if v["verdict"] == "caught"),
-                                             ", ".join(k for k, v in c.items() if v["verdict"] != "caught")))
+                                             str(m.get("first_run", ""))[:200].replace("|", "/")))
 
 
 def main():
